@@ -19,6 +19,7 @@ use std::{
     time::Duration,
 };
 
+mod consume;
 mod ext;
 mod gen;
 mod net;
